@@ -661,6 +661,10 @@ class Lib:
         r = self.getitem_ext(interp, obj, idx, node)
         if r is not NotImplemented:
             return r
+        if isinstance(obj, SObj):
+            r = self.dunder(interp, obj, "__getitem__", [idx], node)
+            if r is not NotImplemented:
+                return r
         interp.err(node, "subscript of %s with %s" % (type(obj).__name__, type(idx).__name__))
 
     def getitem_ext(self, interp, obj, idx, node):
